@@ -47,7 +47,10 @@ def run(prop, mod, make_ctx, seed=0, log=None):
             meta = json.load(open(m))
         except ValueError:
             continue
+        if meta.get("replay") is False:
+            continue        # a seed whose base was changed by a later fix: kept for the record, evaluated on its own base
         if prop in (meta.get("property"), ) or prop in meta.get("also_checked_by", []):
+            # replay_base.diff (optional) restores the code the seed was written against before patch.diff is applied
             seeds.append((meta["seed_id"], os.path.join(os.path.dirname(m), "patch.diff")))
     items = [("mutant", os.path.basename(p)[:-6], p, os.path.basename(p).split("-")[0]) for p in patches] + \
             [("seeded", sid, p, None) for sid, p in seeds]
